@@ -2,8 +2,8 @@ import UmProofs.BrokerScalePlanA
 /-!
 # C10 — the greedy two-pointer plan of `remove_slots_from_src` (part B: the inner `while`)
 -/
-namespace Um.Broker
-open Um Um.Slots
+namespace Um.Broker.Scale
+open Um Um.Slots Um.Broker
 
 /-- final slot count of destination `j` (`dst_r`) -/
 def OutParams.need (P : OutParams) (j : Nat) : Nat :=
@@ -18,30 +18,30 @@ def OutParams.dstIndex (P : OutParams) (mm : MigMeta) : Nat :=
   (mm.dstChunk - P.srcChunkNum) * 2 + mm.dstPart
 
 /-- slots handed to the destinations so far -/
-def OutParams.given (P : OutParams) (st : LoopSt) : Nat := sumTo P.need st.dstIdx + st.curNum
+def OutParams.given (P : OutParams) (st : LoopSt) : Nat := sumTo (OutParams.need P) st.dstIdx + st.curNum
 
-def OutParams.total (P : OutParams) : Nat := sumTo P.need P.dstMasterNum
+def OutParams.total (P : OutParams) : Nat := sumTo (OutParams.need P) P.dstMasterNum
 
 /-- bookkeeping of the emitted tasks -/
 structure OutInv (P : OutParams) (st : LoopSt) : Prop where
-  done : ∀ j, j < st.dstIdx → recvBy P.dstIndex st.out j = P.need j
-  curr : recvBy P.dstIndex st.out st.dstIdx + slotsNum st.curSlots = st.curNum
-  later : ∀ j, st.dstIdx < j → recvBy P.dstIndex st.out j = 0
+  done : ∀ j, j < st.dstIdx → recvBy (OutParams.dstIndex P) st.out j = (OutParams.need P) j
+  curr : recvBy (OutParams.dstIndex P) st.out st.dstIdx + slotsNum st.curSlots = st.curNum
+  later : ∀ j, st.dstIdx < j → recvBy (OutParams.dstIndex P) st.out j = 0
   shape : ∀ ms ∈ st.out, ∃ j, j < P.dstMasterNum ∧ ms.mm.dstChunk = P.srcChunkNum + j / 2 ∧
     ms.mm.dstPart = j % 2 ∧ ms.mm.srcPart < 2 ∧ ms.mm.epoch = P.epoch ∧ compact ms.ranges = ms.ranges
 
 /-- state invariant between and inside the inner loops -/
 structure StInv (P : OutParams) (st : LoopSt) : Prop where
   le : st.dstIdx ≤ P.dstMasterNum
-  lt : st.dstIdx < P.dstMasterNum → st.curNum < P.need st.dstIdx
+  lt : st.dstIdx < P.dstMasterNum → st.curNum < (OutParams.need P) st.dstIdx
   fin : st.dstIdx = P.dstMasterNum → st.curNum = 0 ∧ st.curSlots = []
   out : OutInv P st
 
 theorem OutParams.dstIndex_mk (P : OutParams) (e sc sp j : Nat) :
-    P.dstIndex { epoch := e, srcChunk := sc, srcPart := sp, dstChunk := P.srcChunkNum + j / 2, dstPart := j % 2 } = j := by
+    (OutParams.dstIndex P) { epoch := e, srcChunk := sc, srcPart := sp, dstChunk := P.srcChunkNum + j / 2, dstPart := j % 2 } = j := by
   simp only [OutParams.dstIndex]; omega
 
-theorem OutParams.need_pos (P : OutParams) (h : 1 ≤ P.average) (j : Nat) : 0 < P.need j := by
+theorem OutParams.need_pos (P : OutParams) (h : 1 ≤ P.average) (j : Nat) : 0 < (OutParams.need P) j := by
   unfold OutParams.need; omega
 
 /-- the task record the loops emit -/
@@ -50,25 +50,25 @@ def OutParams.task (P : OutParams) (sc sp j : Nat) (ranges : RangeList) : MigSlo
     mm := { epoch := P.epoch, srcChunk := sc, srcPart := sp, dstChunk := P.srcChunkNum + j / 2, dstPart := j % 2 } }
 
 theorem OutParams.dstIndex_task (P : OutParams) (sc sp j : Nat) (ranges : RangeList) :
-    P.dstIndex (P.task sc sp j ranges).mm = j := P.dstIndex_mk _ _ _ _
+    (OutParams.dstIndex P) ((OutParams.task P) sc sp j ranges).mm = j := (OutParams.dstIndex_mk P) _ _ _ _
 
 /-- result of the inner `while` for one source master -/
 structure WhilePost (P : OutParams) (srcChunk srcPart : Nat) (rl : RangeList) (st : LoopSt)
     (rl' : RangeList) (st' : LoopSt) : Prop where
-  count : slotsNum rl' = P.srcFinal (srcChunk * 2 + srcPart)
+  count : slotsNum rl' = (OutParams.srcFinal P) (srcChunk * 2 + srcPart)
   asc : Asc rl'
   empty : st'.curSlots = []
   inv : StInv P st'
-  given : P.given st' + P.srcFinal (srcChunk * 2 + srcPart) = P.given st + slotsNum rl
+  given : (OutParams.given P) st' + (OutParams.srcFinal P) (srcChunk * 2 + srcPart) = (OutParams.given P) st + slotsNum rl
   mono : st.dstIdx ≤ st'.dstIdx
   outs : ∃ new, st'.out = st.out ++ new ∧ ∀ ms ∈ new, ms.mm.srcChunk = srcChunk ∧ ms.mm.srcPart = srcPart
 
 /-- emitting a task keeps the bookkeeping: destination completed -/
 theorem outInv_emit_done {P : OutParams} {st : LoopSt} (h : OutInv P st) (hlt : st.dstIdx < P.dstMasterNum)
     (sc sp : Nat) (hsp : sp < 2) (ranges : RangeList) (hfx : compact ranges = ranges)
-    (hcount : recvBy P.dstIndex st.out st.dstIdx + slotsNum ranges = P.need st.dstIdx) :
+    (hcount : recvBy (OutParams.dstIndex P) st.out st.dstIdx + slotsNum ranges = (OutParams.need P) st.dstIdx) :
     OutInv P { dstIdx := st.dstIdx + 1, curSlots := [], curNum := 0,
-               out := st.out ++ [P.task sc sp st.dstIdx ranges] } := by
+               out := st.out ++ [(OutParams.task P) sc sp st.dstIdx ranges] } := by
   refine ⟨?_, ?_, ?_, ?_⟩
   · intro j hj
     simp only [recvBy_snoc, OutParams.dstIndex_task]
@@ -95,9 +95,9 @@ theorem outInv_emit_done {P : OutParams} {st : LoopSt} (h : OutInv P st) (hlt : 
 /-- emitting a task keeps the bookkeeping: destination still open -/
 theorem outInv_emit_open {P : OutParams} {st : LoopSt} (h : OutInv P st) (hlt : st.dstIdx < P.dstMasterNum)
     (sc sp : Nat) (hsp : sp < 2) (ranges : RangeList) (hfx : compact ranges = ranges) (curNum' : Nat)
-    (hcount : recvBy P.dstIndex st.out st.dstIdx + slotsNum ranges = curNum') :
+    (hcount : recvBy (OutParams.dstIndex P) st.out st.dstIdx + slotsNum ranges = curNum') :
     OutInv P { dstIdx := st.dstIdx, curSlots := [], curNum := curNum',
-               out := st.out ++ [P.task sc sp st.dstIdx ranges] } := by
+               out := st.out ++ [(OutParams.task P) sc sp st.dstIdx ranges] } := by
   refine ⟨?_, ?_, ?_, ?_⟩
   · intro j hj
     simp only at hj
@@ -141,22 +141,22 @@ theorem cutLast_snd_snd (rl : RangeList) (last : Range) (cur : RangeList) (n r :
 theorem srcBody_eq (P : OutParams) (c p : Nat) (rl : RangeList) (st : LoopSt) :
     srcBody P c p (rl, st) =
       if st.dstIdx == P.dstMasterNum then R.ok (.done (rl, st)) else
-      if slotsNum rl ≤ P.srcFinal (c * 2 + p) then R.ok (.done (rl, st)) else
-      if P.need st.dstIdx < st.curNum then R.panic "remove_slots_from_src: need_num underflow" else
+      if slotsNum rl ≤ (OutParams.srcFinal P) (c * 2 + p) then R.ok (.done (rl, st)) else
+      if (OutParams.need P) st.dstIdx < st.curNum then R.panic "remove_slots_from_src: need_num underflow" else
       match rl.getLast? with
       | none => R.panic "remove_slots_from_src: slots > average + src_r >= 0"
       | some last =>
         let t := cutLast rl last st.curSlots st.curNum
-          (min (P.need st.dstIdx - st.curNum) (slotsNum rl - P.srcFinal (c * 2 + p)))
-        if decide (t.2.2 ≥ P.need st.dstIdx) || decide (slotsNum t.1 ≤ P.srcFinal (c * 2 + p)) then
+          (min ((OutParams.need P) st.dstIdx - st.curNum) (slotsNum rl - (OutParams.srcFinal P) (c * 2 + p)))
+        if decide (t.2.2 ≥ (OutParams.need P) st.dstIdx) || decide (slotsNum t.1 ≤ (OutParams.srcFinal P) (c * 2 + p)) then
           let st2 : LoopSt :=
-            if t.2.2 ≥ P.need st.dstIdx then
+            if t.2.2 ≥ (OutParams.need P) st.dstIdx then
               { dstIdx := st.dstIdx + 1, curSlots := [], curNum := 0,
-                out := st.out ++ [P.task c p st.dstIdx (rlNew t.2.1)] }
+                out := st.out ++ [(OutParams.task P) c p st.dstIdx (rlNew t.2.1)] }
             else
               { dstIdx := st.dstIdx, curSlots := [], curNum := t.2.2,
-                out := st.out ++ [P.task c p st.dstIdx (rlNew t.2.1)] }
-          if slotsNum t.1 ≤ P.srcFinal (c * 2 + p) then R.ok (.done (t.1, st2)) else R.ok (.cont (t.1, st2))
+                out := st.out ++ [(OutParams.task P) c p st.dstIdx (rlNew t.2.1)] }
+          if slotsNum t.1 ≤ (OutParams.srcFinal P) (c * 2 + p) then R.ok (.done (t.1, st2)) else R.ok (.cont (t.1, st2))
         else R.ok (.cont (t.1, { st with curSlots := t.2.1, curNum := t.2.2 })) := by
   simp only [cutLast_fst, cutLast_snd_fst, cutLast_snd_snd]
   rfl
@@ -164,32 +164,32 @@ theorem srcBody_eq (P : OutParams) (c p : Nat) (rl : RangeList) (st : LoopSt) :
 theorem srcWhile_succ (P : OutParams) (c p fuel : Nat) (rl : RangeList) (st : LoopSt) :
     srcWhile P c p (fuel + 1) rl st =
       if st.dstIdx == P.dstMasterNum then R.ok (rl, st) else
-      if slotsNum rl ≤ P.srcFinal (c * 2 + p) then R.ok (rl, st) else
-      if P.need st.dstIdx < st.curNum then R.panic "remove_slots_from_src: need_num underflow" else
+      if slotsNum rl ≤ (OutParams.srcFinal P) (c * 2 + p) then R.ok (rl, st) else
+      if (OutParams.need P) st.dstIdx < st.curNum then R.panic "remove_slots_from_src: need_num underflow" else
       match rl.getLast? with
       | none => R.panic "remove_slots_from_src: slots > average + src_r >= 0"
       | some last =>
         let t := cutLast rl last st.curSlots st.curNum
-          (min (P.need st.dstIdx - st.curNum) (slotsNum rl - P.srcFinal (c * 2 + p)))
-        if decide (t.2.2 ≥ P.need st.dstIdx) || decide (slotsNum t.1 ≤ P.srcFinal (c * 2 + p)) then
+          (min ((OutParams.need P) st.dstIdx - st.curNum) (slotsNum rl - (OutParams.srcFinal P) (c * 2 + p)))
+        if decide (t.2.2 ≥ (OutParams.need P) st.dstIdx) || decide (slotsNum t.1 ≤ (OutParams.srcFinal P) (c * 2 + p)) then
           let st2 : LoopSt :=
-            if t.2.2 ≥ P.need st.dstIdx then
+            if t.2.2 ≥ (OutParams.need P) st.dstIdx then
               { dstIdx := st.dstIdx + 1, curSlots := [], curNum := 0,
-                out := st.out ++ [P.task c p st.dstIdx (rlNew t.2.1)] }
+                out := st.out ++ [(OutParams.task P) c p st.dstIdx (rlNew t.2.1)] }
             else
               { dstIdx := st.dstIdx, curSlots := [], curNum := t.2.2,
-                out := st.out ++ [P.task c p st.dstIdx (rlNew t.2.1)] }
-          if slotsNum t.1 ≤ P.srcFinal (c * 2 + p) then R.ok (t.1, st2) else srcWhile P c p fuel t.1 st2
+                out := st.out ++ [(OutParams.task P) c p st.dstIdx (rlNew t.2.1)] }
+          if slotsNum t.1 ≤ (OutParams.srcFinal P) (c * 2 + p) then R.ok (t.1, st2) else srcWhile P c p fuel t.1 st2
         else srcWhile P c p fuel t.1 { st with curSlots := t.2.1, curNum := t.2.2 } := by
   unfold srcWhile
   rw [iterate, srcBody_eq]
   by_cases h1 : (st.dstIdx == P.dstMasterNum) = true
   · rw [if_pos h1, if_pos h1]
   · rw [if_neg h1, if_neg h1]
-    by_cases h2 : slotsNum rl ≤ P.srcFinal (c * 2 + p)
+    by_cases h2 : slotsNum rl ≤ (OutParams.srcFinal P) (c * 2 + p)
     · rw [if_pos h2, if_pos h2]
     · rw [if_neg h2, if_neg h2]
-      by_cases h3 : P.need st.dstIdx < st.curNum
+      by_cases h3 : (OutParams.need P) st.dstIdx < st.curNum
       · rw [if_pos h3, if_pos h3]
       · rw [if_neg h3, if_neg h3]
         cases rl.getLast? with
@@ -197,21 +197,21 @@ theorem srcWhile_succ (P : OutParams) (c p fuel : Nat) (rl : RangeList) (st : Lo
         | some last =>
           dsimp only
           generalize cutLast rl last st.curSlots st.curNum
-            (min (P.need st.dstIdx - st.curNum) (slotsNum rl - P.srcFinal (c * 2 + p))) = t
-          by_cases h4 : (decide (t.2.2 ≥ P.need st.dstIdx) || decide (slotsNum t.1 ≤ P.srcFinal (c * 2 + p))) = true
+            (min ((OutParams.need P) st.dstIdx - st.curNum) (slotsNum rl - (OutParams.srcFinal P) (c * 2 + p))) = t
+          by_cases h4 : (decide (t.2.2 ≥ (OutParams.need P) st.dstIdx) || decide (slotsNum t.1 ≤ (OutParams.srcFinal P) (c * 2 + p))) = true
           · rw [if_pos h4, if_pos h4]
-            by_cases h5 : slotsNum t.1 ≤ P.srcFinal (c * 2 + p)
+            by_cases h5 : slotsNum t.1 ≤ (OutParams.srcFinal P) (c * 2 + p)
             · rw [if_pos h5, if_pos h5]
             · rw [if_neg h5, if_neg h5]
           · rw [if_neg h4, if_neg h4]
 
 
 theorem OutParams.given_fin (P : OutParams) {st : LoopSt} (h : st.dstIdx = P.dstMasterNum) :
-    P.total ≤ P.given st := by
+    (OutParams.total P) ≤ (OutParams.given P) st := by
   unfold OutParams.total OutParams.given; rw [h]; omega
 
 theorem WhilePost.chain {P : OutParams} {c p : Nat} {rl rl1 rl' : RangeList} {st st2 st' : LoopSt}
-    (h : WhilePost P c p rl1 st2 rl' st') (hg : P.given st2 + slotsNum rl1 = P.given st + slotsNum rl)
+    (h : WhilePost P c p rl1 st2 rl' st') (hg : (OutParams.given P) st2 + slotsNum rl1 = (OutParams.given P) st + slotsNum rl)
     (hm : st.dstIdx ≤ st2.dstIdx)
     (ho : ∃ new, st2.out = st.out ++ new ∧ ∀ ms ∈ new, ms.mm.srcChunk = c ∧ ms.mm.srcPart = p) :
     WhilePost P c p rl st rl' st' := by
@@ -226,9 +226,9 @@ theorem WhilePost.chain {P : OutParams} {c p : Nat} {rl rl1 rl' : RangeList} {st
 
 theorem srcWhile_spec (P : OutParams) (hav : 1 ≤ P.average) (c p : Nat) (hp : p < 2) :
     ∀ (fuel : Nat) (rl : RangeList) (st : LoopSt),
-      Asc rl → P.srcFinal (c * 2 + p) ≤ slotsNum rl → slotsNum rl < P.srcFinal (c * 2 + p) + fuel →
-      P.given st + slotsNum rl ≤ P.total + P.srcFinal (c * 2 + p) →
-      StInv P st → (st.curSlots ≠ [] → P.srcFinal (c * 2 + p) < slotsNum rl) →
+      Asc rl → (OutParams.srcFinal P) (c * 2 + p) ≤ slotsNum rl → slotsNum rl < (OutParams.srcFinal P) (c * 2 + p) + fuel →
+      (OutParams.given P) st + slotsNum rl ≤ (OutParams.total P) + (OutParams.srcFinal P) (c * 2 + p) →
+      StInv P st → (st.curSlots ≠ [] → (OutParams.srcFinal P) (c * 2 + p) < slotsNum rl) →
       PiecesBelow rl st.curSlots →
       ∀ res, srcWhile P c p fuel rl st = res →
       ∃ rl' st', res = R.ok (rl', st') ∧ WhilePost P c p rl st rl' st' := by
@@ -238,14 +238,14 @@ theorem srcWhile_spec (P : OutParams) (hav : 1 ≤ P.average) (c p : Nat) (hp : 
   | succ fuel ih =>
     intro rl st hasc hge hfuel hbud hinv hcur hpieces res hres
     rw [srcWhile_succ] at hres
-    have done : slotsNum rl = P.srcFinal (c * 2 + p) → st.curSlots = [] →
+    have done : slotsNum rl = (OutParams.srcFinal P) (c * 2 + p) → st.curSlots = [] →
         ∃ rl' st', R.ok (rl, st) = R.ok (rl', st') ∧ WhilePost P c p rl st rl' st' := by
       intro h1 h2
       exact ⟨rl, st, rfl, ⟨h1, hasc, h2, hinv, by omega, Nat.le_refl _, [], by simp, by simp⟩⟩
     split at hres
     · rename_i hD
       have hD' : st.dstIdx = P.dstMasterNum := by simpa using hD
-      have := P.given_fin hD'
+      have := (OutParams.given_fin P) hD'
       subst hres
       exact done (by omega) (hinv.fin hD').2
     · rename_i hD
@@ -254,14 +254,14 @@ theorem srcWhile_spec (P : OutParams) (hav : 1 ≤ P.average) (c p : Nat) (hp : 
       split at hres
       · rename_i hle
         subst hres
-        have heq : slotsNum rl = P.srcFinal (c * 2 + p) := by omega
+        have heq : slotsNum rl = (OutParams.srcFinal P) (c * 2 + p) := by omega
         refine done heq ?_
         apply Classical.byContradiction
         intro hne
         have := hcur hne
         omega
       · rename_i hgt
-        have hgt' : P.srcFinal (c * 2 + p) < slotsNum rl := by omega
+        have hgt' : (OutParams.srcFinal P) (c * 2 + p) < slotsNum rl := by omega
         have hneed := hinv.lt hlt
         split at hres
         · omega
@@ -272,45 +272,45 @@ theorem srcWhile_spec (P : OutParams) (hav : 1 ≤ P.average) (c p : Nat) (hp : 
             subst this
             simp at hgt'
           · rename_i last hgl
-            have hrem : 1 ≤ min (P.need st.dstIdx - st.curNum) (slotsNum rl - P.srcFinal (c * 2 + p)) := by
+            have hrem : 1 ≤ min ((OutParams.need P) st.dstIdx - st.curNum) (slotsNum rl - (OutParams.srcFinal P) (c * 2 + p)) := by
               omega
             obtain ⟨moved, hm1, hm2, ht3, ht1, ht2, htasc, htp⟩ :=
               cutLast_spec st.curSlots st.curNum _ hgl hasc hrem hpieces
                 (cutLast rl last st.curSlots st.curNum
-                  (min (P.need st.dstIdx - st.curNum) (slotsNum rl - P.srcFinal (c * 2 + p)))) rfl
+                  (min ((OutParams.need P) st.dstIdx - st.curNum) (slotsNum rl - (OutParams.srcFinal P) (c * 2 + p)))) rfl
             generalize cutLast rl last st.curSlots st.curNum
-                  (min (P.need st.dstIdx - st.curNum) (slotsNum rl - P.srcFinal (c * 2 + p))) = t at *
+                  (min ((OutParams.need P) st.dstIdx - st.curNum) (slotsNum rl - (OutParams.srcFinal P) (c * 2 + p))) = t at *
             obtain ⟨rl1, cur1, num1⟩ := t
             simp only at hres ht3 ht1 ht2 htasc htp
             subst ht3
             have hcnt : slotsNum (rlNew cur1) = slotsNum cur1 := slotsNum_rlNew htp.disjList
             have hcurr := hinv.out.curr
-            by_cases hA : st.curNum + moved ≥ P.need st.dstIdx
+            by_cases hA : st.curNum + moved ≥ (OutParams.need P) st.dstIdx
             · -- the destination is complete
-              have hst2 : StInv P (⟨st.dstIdx + 1, [], 0, st.out ++ [P.task c p st.dstIdx (rlNew cur1)]⟩ : LoopSt) := by
-                refine ⟨by simp only; omega, fun _ => P.need_pos hav _, fun _ => ⟨rfl, rfl⟩, ?_⟩
+              have hst2 : StInv P (⟨st.dstIdx + 1, [], 0, st.out ++ [(OutParams.task P) c p st.dstIdx (rlNew cur1)]⟩ : LoopSt) := by
+                refine ⟨by simp only; omega, fun _ => (OutParams.need_pos P) hav _, fun _ => ⟨rfl, rfl⟩, ?_⟩
                 exact outInv_emit_done hinv.out hlt c p hp (rlNew cur1) (show compact (rlNew cur1) = rlNew cur1 from compact_of_normal (normal_compact cur1)) (by omega)
-              have hgiven : P.given (⟨st.dstIdx + 1, [], 0, st.out ++ [P.task c p st.dstIdx (rlNew cur1)]⟩ : LoopSt) = P.given st + moved := by
+              have hgiven : (OutParams.given P) (⟨st.dstIdx + 1, [], 0, st.out ++ [(OutParams.task P) c p st.dstIdx (rlNew cur1)]⟩ : LoopSt) = (OutParams.given P) st + moved := by
                 simp only [OutParams.given, sumTo]; omega
               simp only [hA, decide_true, Bool.true_or, if_true] at hres
               split at hres
               · subst hres
                 exact ⟨_, _, rfl, ⟨by omega, htasc, rfl, hst2, by omega, by simp,
-                  [P.task c p st.dstIdx (rlNew cur1)], rfl, by simp [OutParams.task]⟩⟩
+                  [(OutParams.task P) c p st.dstIdx (rlNew cur1)], rfl, by simp [OutParams.task]⟩⟩
               · obtain ⟨rl', st', hr, hpost⟩ := ih rl1 _ htasc (by omega) (by omega) (by omega) hst2
                   (fun h => absurd rfl h) (piecesBelow_nil rl1) res hres
                 refine ⟨rl', st', hr, hpost.chain (by omega) (by simp) ?_⟩
-                exact ⟨[P.task c p st.dstIdx (rlNew cur1)], rfl, by simp [OutParams.task]⟩
-            · have hA' : st.curNum + moved < P.need st.dstIdx := by omega
-              by_cases hB : slotsNum rl1 ≤ P.srcFinal (c * 2 + p)
+                exact ⟨[(OutParams.task P) c p st.dstIdx (rlNew cur1)], rfl, by simp [OutParams.task]⟩
+            · have hA' : st.curNum + moved < (OutParams.need P) st.dstIdx := by omega
+              by_cases hB : slotsNum rl1 ≤ (OutParams.srcFinal P) (c * 2 + p)
               · -- the source is drained, the destination stays open
-                have hst2 : StInv P (⟨st.dstIdx, [], st.curNum + moved, st.out ++ [P.task c p st.dstIdx (rlNew cur1)]⟩ : LoopSt) := by
+                have hst2 : StInv P (⟨st.dstIdx, [], st.curNum + moved, st.out ++ [(OutParams.task P) c p st.dstIdx (rlNew cur1)]⟩ : LoopSt) := by
                   refine ⟨hinv.le, fun _ => hA', fun h => absurd h hD', ?_⟩
                   exact outInv_emit_open hinv.out hlt c p hp (rlNew cur1) (show compact (rlNew cur1) = rlNew cur1 from compact_of_normal (normal_compact cur1)) _ (by omega)
                 simp only [hA, hB, decide_true, decide_false, Bool.or_true, if_true, if_false] at hres
                 subst hres
                 exact ⟨_, _, rfl, ⟨by omega, htasc, rfl, hst2, by simp only [OutParams.given]; omega, by simp,
-                  [P.task c p st.dstIdx (rlNew cur1)], rfl, by simp [OutParams.task]⟩⟩
+                  [(OutParams.task P) c p st.dstIdx (rlNew cur1)], rfl, by simp [OutParams.task]⟩⟩
               · -- keep cutting for the same destination
                 have hst3 : StInv P (⟨st.dstIdx, cur1, st.curNum + moved, st.out⟩ : LoopSt) := by
                   refine ⟨hinv.le, fun _ => hA', fun h => absurd h hD', ?_⟩
@@ -322,4 +322,4 @@ theorem srcWhile_spec (P : OutParams) (hav : 1 ≤ P.average) (c p : Nat) (hp : 
                 refine ⟨rl', st', hr, hpost.chain (by simp only [OutParams.given]; omega) (by simp) ?_⟩
                 exact ⟨[], by simp, by simp⟩
 
-end Um.Broker
+end Um.Broker.Scale
